@@ -497,6 +497,52 @@ def scn_real(ctx):
     ctx.log("real verdict=ok")
 
 
+def scn_strict(ctx):
+    """The process runs with DeprecationWarning promoted to an error (python -W error, pytest -W
+    error): whatever one-at-a-time evaluation does under that filter — raise or return — the
+    batch must do under every interleaving.  The warnings filter list is process-global state
+    that a per-event `warnings.catch_warnings()` saves and restores without any lock."""
+    import warnings
+
+    from nuspacesim.simulation.eas_optical.cphotang import CphotAng
+
+    ch, tier = ctx.ch, ctx.tier
+    warnings.filterwarnings("error", category=DeprecationWarning)  # this run lives in a forked child
+    det_alt = DET_ALTS[ch.draw(3, "det_alt")]
+    kind = ("none", "const2", "repo-mono")[ch.draw(3, "cloud")]
+    pool = _pool(tier)
+    n = 2 + ch.draw(24, "N")
+    idx = [ch.draw(len(pool), "event") for _ in range(n)]
+    exp = [_eval_one(det_alt, kind, pool[i]) for i in idx]
+    world = draw_world(ctx, env.repo_src(), allow_faults=False, n_items=n, force_mode="interleaved")
+    world.cfg["quantum_policy"] = ("fine", "mixed", "targeted")[ch.draw(3, "strict_quanta")]
+    psize = 1 + ch.draw(max(1, n // 2), "partition_size")
+    ctx.log(f"strict N={n} psize={psize} det_alt={det_alt:g} cloud={kind} one_at_a_time={'raises' if any(e[0] == 'exc' for e in exp) else 'returns'}")
+    ctx.describe.update(N=n, partition_size=psize, workers=world.workers, quantum_policy=world.cfg["quantum_policy"], warnings="error::DeprecationWarning")
+    res = exc = None
+    with world.active(partition_knob=psize):
+        try:
+            res = CphotAng(det_alt)(*_arrays(tier, idx), _cloud(kind))
+        except HarnessError:
+            raise
+        except BaseException as e:  # noqa: BLE001
+            exc = e
+    ctx.probes["warnings_as_errors_run"] += 1
+    ctx.nontrivial = world.context_switches > 0
+    must_raise = any(e[0] == "exc" for e in exp)
+    ctx.probes["strict_one_at_a_time_raises" if must_raise else "strict_one_at_a_time_returns"] += 1
+    if must_raise:
+        if exc is None:
+            raise Violation("c10.fault_not_surfaced", "under -W error::DeprecationWarning an event raises one at a time, but the batch returned", sig="CphotAng.__call__")
+        return
+    if exc is not None:
+        raise Violation("c10.raised_without_fault", f"under -W error::DeprecationWarning every event evaluates one at a time, but the batch of {n} raised {type(exc).__name__}: {str(exc)[:160]} (interleaved, {world.context_switches} context switches)", sig="CphotAng.__call__")
+    d, c = np.asarray(res[0]), np.asarray(res[1])
+    bad = np.nonzero((_bits(d) != _bits([e[1] for e in exp])) | (_bits(c) != _bits([e[2] for e in exp])))[0] if d.shape == (n,) else [0]
+    if len(bad):
+        raise Violation("c10.bits", f"under -W error::DeprecationWarning: batch of {n} differs from one-at-a-time at position {int(bad[0])}", sig="CphotAng.__call__")
+
+
 def scn_huge(ctx):
     """More events than numpy's 8192-element iterator buffer, and one column that is not float64
     (integer energies, float32 altitudes ...): the batch is built from whatever array types the
@@ -586,12 +632,12 @@ class _NullOut:
         return False
 
 
-FAMILIES = {"faultfree": scn_faultfree, "faults": scn_faults, "real": scn_real, "huge": scn_huge}
+FAMILIES = {"faultfree": scn_faultfree, "faults": scn_faults, "real": scn_real, "huge": scn_huge, "strict": scn_strict}
 OBSERVATIONAL = ("real",)
 
 PLAN = {
-    "quick": [("huge", 2, 1), ("faultfree", 900, 6), ("faults", 500, 6), ("real", 16, 1)],
-    "thorough": [("faultfree", 40000, 20), ("faults", 20000, 20), ("real", 300, 2), ("huge", 16, 1)],
+    "quick": [("huge", 2, 1), ("faultfree", 900, 6), ("faults", 500, 6), ("real", 16, 1), ("strict", 60, 4)],
+    "thorough": [("faultfree", 40000, 20), ("faults", 20000, 20), ("real", 300, 2), ("huge", 16, 1), ("strict", 3000, 10)],
 }
 BUDGET = {"quick": 300, "thorough": 2700}
 
